@@ -574,7 +574,19 @@ def steps():
         st.tuples(st.just("with"), h, st.sampled_from(["plain", "raise-suppressed", "raise-propagated"])),
     ).map(list)
     meth = h.flatmap(method_step).map(list)
-    return st.lists(st.one_of(simple, simple, meth), min_size=1, max_size=25)
+    # constructive fragments on the harness-class instances (world slots 6, 7, 11):
+    #  - state-dependent results asked twice with a state change in between (hash / len / str / bool / repr of one proxy)
+    #  - ordering where only the OTHER operand's reflected method can answer (Vec defines just __lt__: a > b needs b.__lt__(a))
+    vec = st.sampled_from([6, 7, 11])
+    ask = st.sampled_from(["hash", "len", "str", "bool", "repr"])
+    mutate = st.one_of(st.tuples(st.just("method"), vec, st.just("scale"), st.just([["v", ["int", "3"]]]), st.just([])).map(list),
+                       st.tuples(st.just("setattr"), vec, st.just("xs"), st.just(["v", ["tuple", [["int", "7"], ["int", "8"]]]])).map(list))
+    twice = st.tuples(vec, ask, mutate).map(lambda t: [[t[1], t[0]], [t[2][0], t[0]] + t[2][2:], [t[1], t[0]]])
+    reflected = st.tuples(vec, st.sampled_from(["gt", "ge", "le", "lt"]), vec).map(lambda t: [["cmp", t[0], t[1], ["h", t[2]]]])
+    plain = st.lists(st.one_of(simple, simple, meth), min_size=1, max_size=25)
+    frag = st.one_of(twice, reflected)
+    return st.one_of(plain, plain, st.tuples(st.lists(st.one_of(simple, meth), max_size=6), frag, st.lists(st.one_of(simple, meth), max_size=6)).map(
+        lambda t: t[0] + t[1] + t[2]))
 
 
 def cases():
